@@ -12,6 +12,7 @@ import (
 	"sort"
 	"strings"
 	"sync"
+	"syscall"
 	"time"
 )
 
@@ -192,6 +193,7 @@ func Run(o RunOpts) (*Aggregate, error) {
 		wdir := filepath.Join(scratchRoot, fmt.Sprintf("w%d", id))
 		_ = os.MkdirAll(wdir, 0o755)
 		cmd := exec.Command(o.Exe, "-worker")
+		cmd.SysProcAttr = &syscall.SysProcAttr{Pdeathsig: syscall.SIGKILL}
 		cmd.Env = append(os.Environ(),
 			"VERIF_SCRATCH="+wdir,
 			"VERIF_REPO="+o.Repo,
@@ -282,6 +284,7 @@ func Run(o RunOpts) (*Aggregate, error) {
 			caseTimeout = 45 * time.Minute
 		}
 	}
+	verbose := os.Getenv("VERIF_VERBOSE") != ""
 	tick := time.NewTicker(2 * time.Second)
 	defer tick.Stop()
 
@@ -309,6 +312,9 @@ func Run(o RunOpts) (*Aggregate, error) {
 					w.inflight = nil
 					agg.Crashes++
 					deathCount[c.ID]++
+					if verbose {
+						fmt.Fprintf(os.Stderr, "death: case %d (%s) sub %d (%s) after %s\n", c.ID, c.Kind, w.lastSub, w.lastNote, time.Since(w.started).Round(time.Millisecond))
+					}
 					if w.lastNote == "__watchdog__" {
 						agg.Inconclusive = append(agg.Inconclusive, fmt.Sprintf("case %d: watchdog fired after %s", c.ID, caseTimeout))
 					} else {
@@ -342,6 +348,9 @@ func Run(o RunOpts) (*Aggregate, error) {
 				w.lastSub = ev.msg.Sub
 				w.lastNote = ev.msg.Note
 			case "R":
+				if verbose {
+					fmt.Fprintf(os.Stderr, "done: case %d (%s) in %s, %d failures\n", w.inflight.ID, w.inflight.Kind, time.Since(w.started).Round(time.Millisecond), len(ev.msg.Result.Failures))
+				}
 				agg.add(ev.msg.Result, w.inflight)
 				w.inflight = nil
 				if !send(w) {
